@@ -44,3 +44,25 @@ package ssh
 //@   ensures [generated] !old(s.Storage.ghaskv["private-key"]) && result != nil ==> s.Storage.ghaskv["private-key"] && result == keyof(s.Storage.gkv["private-key"])
 //@   ensures [others] forall k string :: k != "private-key" ==> s.Storage.ghaskv[k] == old(s.Storage.ghaskv[k]) && s.Storage.gkv[k] == old(s.Storage.gkv[k])
 //@   modifies ghost(ghaskv), ghost(gkv), ghost(gsetfail)
+//
+// ---- request payloads (property C01): splitting an "env" / "exec" payload into strings terminates ----
+// pdrem: bytes of the payload not yet consumed. Every further round of the two loops has consumed at
+// least the four length bytes of a string; a string that does not fit ends the loop.
+//@ spec pdrem(pd *payloadDecoder) int = len(unbox(pd.Decoder, *decoder.Decode).data) - unbox(pd.Decoder, *decoder.Decode).offset
+//@ spec pdOK(pd *payloadDecoder) bool = pd != nil && typeis(pd.Decoder, *decoder.Decode) && unbox(pd.Decoder, *decoder.Decode) != nil && decoder.wf(unbox(pd.Decoder, *decoder.Decode))
+//@ func PayloadDecoder
+//@   ensures pdOK(result) && fresh(result) && pdrem(result) == len(payload)
+//@   modifies nothing
+//@ func (*payloadDecoder).String
+//@   requires pdOK(pd)
+//@   ensures pdOK(pd) && pd.Decoder == old(pd.Decoder)
+//@   ensures [consumes] unbox(pd.Decoder, *decoder.Decode).lasterror == nil ==> pdrem(pd) + 4 <= old(pdrem(pd))
+//@   ensures [sticky] old(unbox(pd.Decoder, *decoder.Decode).lasterror) != nil ==> unbox(pd.Decoder, *decoder.Decode).lasterror != nil
+//@   modifies unbox(pd.Decoder, *decoder.Decode).offset, unbox(pd.Decoder, *decoder.Decode).lasterror
+//
+//@ func (*sshSimulatorService).Handle$4
+//@   modifies *
+//@   loop 2: invariant pdOK(decoder)
+//@   loop 2: decreases pdrem(decoder)
+//@   loop 3: invariant pdOK(decoder)
+//@   loop 3: decreases pdrem(decoder)
